@@ -71,7 +71,7 @@ func errClass(err error) string {
 }
 
 // c09Arena is the long-lived backing array of the server's key slice (see drive).
-var c09Arena = make([]ech.Key, 16)
+var c09Arena = make([]ech.Key, 160)
 
 // drive runs the flow twice over the SAME Option values (an application builds its options
 // once and hands them to NewConn for every connection it accepts) and requires the second
@@ -175,7 +175,7 @@ func sameOutcome(a, b connOutcome) bool {
 
 func TestC09(t *testing.T) {
 	rec := ev.Get("C09")
-	rec.Rule("target key T, a hello sealed to T (C03 generator) and, in half of the cases, an HRR plus a well-formed retried hello; hellos up to the record limit in a third of the cases; key lists of 1..6 entries drawn from {T, same-id keys with equal/different suite lists, other-id keys, same-id keys with another public name}, every position of T, T absent, two drawn orders. The list is handed over in two WithKeys options (the first a slice with spare capacity that another connection of the application reuses in between). Metamorphic oracle: outcome(list) == outcome([T]) when T is in the list, == outcome([]) otherwise; outcome = (error class, accepted, first record, SNI, ALPN, second record/error, alert bytes). distinct = list shape; non-trivial = list holds another key with T's id")
+	rec.Rule("target key T, a hello sealed to T (C03 generator) and, in half of the cases, an HRR plus a well-formed retried hello; hellos up to the record limit in a third of the cases; key lists of 1..6 entries (in 4% of the cases 60..140 more keys under other ids) drawn from {T, same-id keys with equal/different suite lists, other-id keys, same-id keys with another public name}, every position of T, T absent, two drawn orders. The list is handed over in two WithKeys options (the first a slice with spare capacity that another connection of the application reuses in between). Metamorphic oracle: outcome(list) == outcome([T]) when T is in the list, == outcome([]) otherwise; outcome = (error class, accepted, first record, SNI, ALPN, second record/error, alert bytes). distinct = list shape; non-trivial = list holds another key with T's id")
 	rec.Mandatory("T_first_sameid_neighbour", "T_middle_sameid_neighbour", "T_last_sameid_neighbour", "T_absent_sameid_present", "retry", "permuted")
 	rapid.Check(t, func(t *rapid.T) {
 		// a third of the hellos may be large (up to the record limit): what a trial costs
@@ -251,6 +251,13 @@ func TestC09(t *testing.T) {
 				shape = append(shape, "otherid")
 			}
 			others = append(others, k)
+		}
+		if rapid.IntRange(0, 24).Draw(t, "hosting_provider") == 0 {
+			// one key per hosted name: the list is long (well over 64 entries), mostly other ids
+			for i, m := 0, rapid.IntRange(60, 140).Draw(t, "many_keys"); i < m; i++ {
+				others = append(others, drawKey(t, fmt.Sprintf("h%d", i), (int(T.ID)+1+i%255)%256, fmt.Sprintf("host%d.%s", i, T.PublicName[:min(len(T.PublicName), 200)])))
+			}
+			shape = append(shape, "many_otherid")
 		}
 		present := rapid.IntRange(0, 4).Draw(t, "T_present") != 0
 		list := append([]*hello.Key{}, others...)
